@@ -7,6 +7,7 @@ import (
 
 	"verif/internal/gen"
 	"verif/internal/mon"
+	"verif/internal/ref"
 	"verif/internal/run"
 )
 
@@ -18,7 +19,7 @@ func init() { register(c08{}) }
 func (c08) ID() string    { return "C08" }
 func (c08) Level() string { return "fault_enumeration" }
 func (c08) Rule() string {
-	return "fault enumeration: frames (all types, short forms, multi-byte remaining lengths, malformed content, type 0) x EVERY cut offset k in [0, frame length) for frames up to 4 KiB (field boundaries +-2 and a log-spaced sample above) x failure {io.EOF, sentinel error E, E wrapped, an error that is E and unwraps to io.EOF} x style {error on the call after the data, error together with the last data} x prefix delivery {contiguous, one byte at a time, random chunks}. Oracle: nil packet and non-nil error; errors.Is(err, E) for an injected E; errors.Is(err, io.EOF) for EOF at k=0; a packet only if every byte was delivered (counted by the scripted reader). distinct = (frame digest, k, failure, style, delivery); non-trivial = k > 0"
+	return "fault enumeration: frames (all types, short forms, multi-byte remaining lengths, malformed content, type 0) x EVERY cut offset k in [0, frame length) for frames up to 4 KiB (field boundaries +-2 and a log-spaced sample above) x failure {io.EOF, sentinel error E, E wrapped, an error that is E and unwraps to io.EOF, a timeout-class error (Timeout() true), an error of an uncomparable type} x style {error on the call after the data, error together with the last data} x prefix delivery {contiguous, one byte at a time, random chunks}. Oracle: nil packet and non-nil error; errors.Is(err, E) for an injected E; errors.Is(err, io.EOF) for EOF at k=0; a packet only if every byte was delivered (counted by the scripted reader). distinct = (frame digest, k, failure, style, delivery); non-trivial = k > 0"
 }
 func (c08) Assumptions() []string {
 	return []string{"readers obey the io.Reader contract; after reporting an error the reader keeps reporting it", "inside a frame io.EOF and io.ErrUnexpectedEOF are both acceptable (only non-nil is required)"}
@@ -83,7 +84,7 @@ func (c08) Run(c *run.Ctx, phase, idx int) {
 		name string
 		err  error
 	}
-	fails := []failure{{"eof", io.EOF}, {"E", mon.ErrInjected}, {"wrapped-E", wrapped}, {"E-wrapping-eof", mon.EOFWrappingErr{}}}
+	fails := []failure{{"eof", io.EOF}, {"E", mon.ErrInjected}, {"wrapped-E", wrapped}, {"E-wrapping-eof", mon.EOFWrappingErr{}}, {"timeout-E", mon.TimeoutErr{}}, {"uncomparable-E", mon.SliceErr{"link down", "retry later"}}}
 	for ci, k := range cuts {
 		if ci%256 == 0 {
 			c.Tick()
@@ -127,7 +128,7 @@ func (c08) Run(c *run.Ctx, phase, idx int) {
 		}
 	}
 	if c.WantSample() && n > 4 {
-		c.Sample(map[string]interface{}{"frame": hexClip(f.Bytes, 48), "type": tname(f.Type), "kind": f.Kind, "frame_len": n, "cut_offsets": len(cuts), "failures": []string{"eof", "E", "wrapped-E", "E-wrapping-eof"}, "styles": []string{"after-data", "with-last-data"}})
+		c.Sample(map[string]interface{}{"frame": hexClip(f.Bytes, 48), "type": tname(f.Type), "kind": f.Kind, "frame_len": n, "cut_offsets": len(cuts), "failures": []string{"eof", "E", "wrapped-E", "E-wrapping-eof", "timeout-E", "uncomparable-E"}, "styles": []string{"after-data", "with-last-data"}})
 	}
 }
 
@@ -139,6 +140,26 @@ func c08One(c *run.Ctx, f wireFrame, k int, fname string, ferr error, style int,
 	})
 	res := mon.Read(rd)
 	c.Eval(1)
+	var isPan *mon.Panic
+	matches := false
+	if res.Err != nil && res.Panic == nil {
+		// errors.Is itself must not blow up on the error that comes back
+		isPan = mon.Guard(func() { matches = errors.Is(res.Err, ferr) || errors.Is(res.Err, mon.ErrInjected) })
+	}
+	if fname == "timeout-E" && k > 0 && k%7 == 3 && res.Panic == nil {
+		// the reader value is recycled for another connection (a pooled
+		// bufio.Reader, a reader reset after a deadline): the next packet read
+		// through it must be that stream's first packet and nothing else
+		f2 := ref.Reframe(0x40, []byte{0x12, 0x34})
+		rd.Reset(f2, nil, nil)
+		r2 := mon.Read(rd)
+		c.Eval(1)
+		if ok, why := sameOutcome(readIsolated(f2), r2); !ok {
+			c.Violation("C08/recycled-reader/"+where0(k), fmt.Sprintf("after a %s frame failed at offset %d with a timeout, the same reader value was given a new stream (40 02 12 34): %s", tname(f.Type), k, why),
+				map[string]interface{}{"first_frame": hexClip(f.Bytes, 1024), "cut": k})
+			return
+		}
+	}
 	c.Distinct(run.HashBytes(run.Hash64(itoa(k), fname, styleName, dl), f.Bytes), k > 0)
 	c.Count("faults", fname+"/"+styleName+"/"+dl, 1)
 	where := "header"
@@ -156,15 +177,26 @@ func c08One(c *run.Ctx, f wireFrame, k int, fname string, ferr error, style int,
 		c.Violation("C08/packet-from-partial-frame/"+where+"/"+fname+"/"+styleName, fmt.Sprintf("%s frame of %d bytes cut at offset %d (%s, %s, %s): ReadPacket returned a packet although only %d bytes were delivered", T, len(f.Bytes), k, fname, styleName, dl, rd.Delivered), det())
 	case !res.PairOK():
 		c.Violation("C08/pair/"+where, "ReadPacket returned neither packet nor error", det())
+	case isPan != nil:
+		c.Violation("C08/errors-is-panics/"+where+"/"+fname, fmt.Sprintf("errors.Is on the error ReadPacket returned panicked (%s): %s", fname, isPan.String()), det())
+	case fname == "timeout-E" && k%7 == 3 && k > 0:
+		// the reader was recycled above; its flags describe the second stream
 	case !rd.BareErr:
 		// the call failed without ever getting (0, E) from the reader: it
 		// refused what it had seen so far, possibly the very bytes that came
 		// together with E (which io.ReadFull drops when the buffer is full):
 		// there was no failure for it to propagate
 		c.Count("faults", "refused-before-the-failure", 1)
-	case ferr != io.EOF && !errors.Is(res.Err, mon.ErrInjected):
+	case ferr != io.EOF && !matches:
 		c.Violation("C08/error-lost/"+where+"/"+fname+"/"+styleName, fmt.Sprintf("%s frame cut at offset %d: the reader failed with E but errors.Is(err, E) is false: %v", T, k, res.Err), det())
 	case ferr == io.EOF && k == 0 && !errors.Is(res.Err, io.EOF):
 		c.Violation("C08/eof-lost", fmt.Sprintf("stream ended on a frame boundary but errors.Is(err, io.EOF) is false: %v", res.Err), det())
 	}
+}
+
+func where0(k int) string {
+	if k >= 2 {
+		return "body"
+	}
+	return "header"
 }
